@@ -34,6 +34,10 @@ inductive Val where
   | bare (kvs : List (String × Val))
   /-- `NestedArg(key, val)`: the value of a dotted option `--opt.KEY=val` (leading `init_args.` already removed) -/
   | nested (key : List String) (v : Val)
+  /-- a list: the value of a `List[Class]` argument / parameter (given or stored) -/
+  | lst (xs : List Val)
+  /-- a dict with string keys: the value of a `Dict[str, Class]` argument / parameter (given or stored) -/
+  | dct (kvs : List (String × Val))
 
 instance : Inhabited Val := ⟨.lit "NoneType" "None"⟩
 
@@ -45,6 +49,10 @@ inductive PTy where
   | optScalar (ty : String)
   | cls (base : String)
   | optCls (base : String)
+  /-- `List[base]` -/
+  | listOf (base : String)
+  /-- `Dict[str, base]` -/
+  | dictOf (base : String)
 deriving DecidableEq, Repr
 
 structure IParam where
@@ -83,6 +91,8 @@ inductive Err where
   | unknownKey         -- "Key … is not expected"
   | illTyped           -- "Expected a <class …>"
   | missingRequired    -- "Key … is required but not included"
+  | notList            -- "Expected a <class 'list'>"
+  | notDict            -- "Expected a <class 'dict'>"
 deriving DecidableEq, Repr
 
 /-! ### association lists -/
@@ -168,6 +178,8 @@ def asNamespace (prevCp : Option String) (raw : Val) : Except Err (String × KV 
   | .nested ["dict_kwargs", k] v => withPrev [] [(k, v)]
   | .nested [k] v => withPrev [(k, v)] []
   | .nested (k :: rest) v => withPrev [(k, .nested rest v)] []
+  | .lst _ => .error .notSpec
+  | .dct _ => .error .notSpec
 
 /-! ### one assignment -/
 
@@ -180,6 +192,104 @@ def coerceScalar (t : String) : Val → Option Val
     else if t == "float" && t' == "int" then some (.lit "float" (tok ++ ".0"))
     else none
   | _ => none
+
+/-! ### `List[Class]` and `Dict[str, Class]`: the List and Dict branches of `adapt_typehints` -/
+
+/-- the previous value handed to each item of a list of `n` items: `prev_val[n]` only when the previous value is a list
+    of the SAME length; otherwise the (deep-copied) kwargs keep the whole previous value, whatever it is -/
+def listPrevs (prev : Option Val) (n : Nat) : List (Option Val) :=
+  match prev with
+  | some (.lst ps) => if ps.length = n then ps.map some else List.replicate n (some (.lst ps))
+  | other => List.replicate n other
+
+/-- `for n, v in enumerate(val): val[n] = adapt_typehints(v, subtypehints[0], prev_val=...)` -/
+def adaptItems (rec : String → Option Val → Val → Except Err Val) (b : String) :
+    List (Option Val) → List Val → Except Err (List Val)
+  | _, [] => .ok []
+  | ps, v :: vs =>
+    match rec b (ps.head?.getD none) v with
+    | .error e => .error e
+    | .ok y =>
+      match adaptItems rec b ps.tail vs with
+      | .error e => .error e
+      | .ok ys => .ok (y :: ys)
+
+def prevList : Option Val → List Val
+  | some (.lst ps) => ps
+  | _ => []
+
+/-- the List branch without `+`: a list is taken item by item; a `NestedArg` (dotted sub-option) addresses the LAST item
+    of the previous list: `val = prev_val[:-1] + [val]` -/
+def adaptListWith (rec : String → Option Val → Val → Except Err Val) (b : String) (prev : Option Val) (raw : Val) :
+    Except Err Val :=
+  let items : Option (List Val) := match raw with
+    | .lst xs => some xs
+    | .nested key v => some ((prevList prev).dropLast ++ [.nested key v])
+    | _ => none
+  match items with
+  | none => .error .notList
+  | some xs =>
+    match adaptItems rec b (listPrevs prev xs.length) xs with
+    | .error e => .error e
+    | .ok ys => .ok (.lst ys)
+
+/-- the List branch with `+` (`--opt+=value`): the previous list (a previous non-list is adapted into a one-item list if
+    that works, else dropped) followed by the new item(s); the old items keep themselves as previous value, the new
+    ones have none -/
+def adaptListAppendWith (rec : String → Option Val → Val → Except Err Val) (b : String) (prev : Option Val) (raw : Val) :
+    Except Err Val :=
+  let prevL : List Val := match prev with
+    | none => []
+    | some (.lst ps) => ps
+    | some p => if (match p with | .lit "NoneType" _ => true | _ => false) then [] else
+      (match rec b none p with
+       | .ok y => [y]
+       | .error _ => [])
+  let added : List Val := match raw with
+    | .lst xs => xs
+    | v => [v]
+  match adaptItems rec b (prevL.map some ++ List.replicate added.length none) (prevL ++ added) with
+  | .error e => .error e
+  | .ok ys => .ok (.lst ys)
+
+/-- the previous value handed to key `k` of a dict: `kwargs = adapt_kwargs.copy()` for every key, then
+    `if kwargs.get("prev_val"): kwargs["prev_val"] = prev_val.get(k) if isinstance(prev_val, dict) else None` -/
+def dictPrev (prev : Option Val) (k : String) : Option Val :=
+  match prev with
+  | some (.dct []) => some (.dct [])        -- falsy: handed on as it is
+  | some (.dct pkvs) => getKV k pkvs
+  | _ => none
+
+/-- `for k, v in val.items(): val[k] = adapt_typehints(v, subtypehints[1], prev_val=...)` -/
+def adaptEntries (rec : String → Option Val → Val → Except Err Val) (b : String) (prev : Option Val) : KV → Except Err KV
+  | [] => .ok []
+  | (k, v) :: r =>
+    match rec b (dictPrev prev k) v with
+    | .error e => .error e
+    | .ok y =>
+      match adaptEntries rec b prev r with
+      | .error e => .error e
+      | .ok ys => .ok ((k, y) :: ys)
+
+/-- `NestedArg.key` of `--opt.a.b.c=v` is the string `a.b.c` -/
+def joinKey (key : List String) : String := String.intercalate "." key
+
+/-- the Dict branch: a dict is taken key by key; a `NestedArg` sets ONE key — the whole dotted remainder is the key —
+    keeping the other keys of the previous dict: `val = {**prev_val, val.key: val.val}` -/
+def adaptDictWith (rec : String → Option Val → Val → Except Err Val) (b : String) (prev : Option Val) (raw : Val) :
+    Except Err Val :=
+  let items : Option KV := match raw with
+    | .dct kvs => some kvs
+    | .nested key v => some (match prev with
+        | some (.dct pkvs) => setKV (joinKey key) v pkvs
+        | _ => [(joinKey key, v)])
+    | _ => none
+  match items with
+  | none => .error .notDict
+  | some kvs =>
+    match adaptEntries rec b prev kvs with
+    | .error e => .error e
+    | .ok ys => .ok (.dct ys)
 
 /-- validation of one init arg against the parameter's type; `rec` adapts a class-typed value -/
 def adaptValueWith (rec : String → Option Val → Val → Except Err Val) (ty : PTy) (prev : Option Val) (v : Val) :
@@ -196,6 +306,8 @@ def adaptValueWith (rec : String → Option Val → Val → Except Err Val) (ty 
     | none => .error .illTyped
   | .cls b => rec b prev v
   | .optCls b => if isNone v then .ok v else rec b prev v
+  | .listOf b => adaptListWith rec b prev v
+  | .dictOf b => adaptDictWith rec b prev v
 
 def isOk {α : Type} : Except Err α → Bool
   | .ok _ => true
@@ -242,7 +354,13 @@ def prevParts : Option Val → Option (String × KV × KV)
 def prevCpOf (E : ClassEnv) (base : String) (prev : Option Val) : Option String :=
   match prevParts prev with
   | some (cp, _, _) => some cp
-  | none => if isAbstract E base then none else some base
+  | none =>
+    -- a previous value that is neither None nor a spec (a whole list handed to an item, an empty dict) is not None:
+    -- no implicit class_path, and nothing to complete a short form from
+    let isNonePrev : Bool := match prev with
+      | none => true
+      | some v => isNone v
+    if isNonePrev && !isAbstract E base then some base else none
 
 /-- `adapt_class_type` (and the `cfg.update` that stores its result) once the class is known -/
 def adaptClass (rec : String → Option Val → Val → Except Err Val) (pp : Option (String × KV × KV))
@@ -317,6 +435,26 @@ def paramsOf (E : ClassEnv) (cp : String) : List IParam :=
   | some (.func _ _ ps) => ps
   | _ => []
 
+def mapValsE (f : Val → Except Err Val) : List Val → Except Err (List Val)
+  | [] => .ok []
+  | v :: r =>
+    match f v with
+    | .error e => .error e
+    | .ok y =>
+      match mapValsE f r with
+      | .error e => .error e
+      | .ok ys => .ok (y :: ys)
+
+def mapKVE (f : Val → Except Err Val) : KV → Except Err KV
+  | [] => .ok []
+  | (k, v) :: r =>
+    match f v with
+    | .error e => .error e
+    | .ok y =>
+      match mapKVE f r with
+      | .error e => .error e
+      | .ok ys => .ok ((k, y) :: ys)
+
 def finalize (E : ClassEnv) : Nat → Val → Except Err Val
   | 0, _ => .error .fuel
   | fuel + 1, v =>
@@ -325,6 +463,14 @@ def finalize (E : ClassEnv) : Nat → Val → Except Err Val
       match finalizeArgsWith (finalize E fuel) ia (paramsOf E cp) with
       | .error e => .error e
       | .ok ia' => .ok (.spec (some cp) ia' dk)
+    | .lst xs =>
+      match mapValsE (finalize E fuel) xs with
+      | .error e => .error e
+      | .ok ys => .ok (.lst ys)
+    | .dct kvs =>
+      match mapKVE (finalize E fuel) kvs with
+      | .error e => .error e
+      | .ok ys => .ok (.dct ys)
     | other => .ok other
 
 /-- the sources of one argument, in order -/
@@ -363,6 +509,35 @@ def adaptAllWithDefault (E : ClassEnv) (fuel : Nat) (base : String) (dflt : Opti
         | .error e => .error e
         | .ok s' => .ok (some s')
 
+/-! ### an argument of any of the modelled types (class, Optional class, list of class, dict of class) -/
+
+/-- one source of an argument: the value and whether it came through `--opt+` -/
+structure Src where
+  raw : Val
+  append : Bool := false
+
+/-- `ActionTypeHint.__call__` → `_check_type` → `adapt_typehints` for the argument's own type -/
+def adaptArg (E : ClassEnv) (fuel : Nat) (ty : PTy) (prev : Option Val) (s : Src) : Except Err Val :=
+  match ty, s.append with
+  | .listOf b, true => adaptListAppendWith (adapt E fuel) b prev s.raw
+  | ty, _ => adaptValueWith (adapt E fuel) ty prev s.raw
+
+def adaptArgSeq (E : ClassEnv) (fuel : Nat) (ty : PTy) : Option Val → List Src → Except Err (Option Val)
+  | prev, [] => .ok prev
+  | prev, s :: r =>
+    match adaptArg E fuel ty prev s with
+    | .error e => .error e
+    | .ok v => adaptArgSeq E fuel ty (some v) r
+
+def adaptArgAll (E : ClassEnv) (fuel : Nat) (ty : PTy) (srcs : List Src) : Except Err (Option Val) :=
+  match adaptArgSeq E fuel ty none srcs with
+  | .error e => .error e
+  | .ok none => .ok none
+  | .ok (some s) =>
+    match finalize E fuel s with
+    | .error e => .error e
+    | .ok s' => .ok (some s')
+
 /-! ### `instantiate_classes` -/
 
 inductive Arg where
@@ -370,6 +545,9 @@ inductive Arg where
   /-- the object built by the `idx`-th constructor call of the log -/
   | obj (idx : Nat)
   | raw
+  /-- a list / a dict whose items are objects of the log (`none`: an item that is not a spec, passed as it is) -/
+  | lst (items : List (Option Nat))
+  | dct (items : List (String × Option Nat))
 deriving DecidableEq, Repr
 
 structure Ctor where
@@ -384,6 +562,11 @@ def rawArg : Val → Arg
   | .lit ty tok => .lit ty tok
   | _ => .raw
 
+/-- the log index of an instantiated item -/
+def objIdx : Arg → Option Nat
+  | .obj i => some i
+  | _ => none
+
 mutual
 def inst : Val → List Ctor → List Ctor × Arg
   | .spec (some cp) ia dk, log =>
@@ -393,12 +576,32 @@ def inst : Val → List Ctor → List Ctor × Arg
   | .spec none _ _, log => (log, .raw)
   | .bare _, log => (log, .raw)
   | .nested _ _, log => (log, .raw)
+  | .lst xs, log =>
+    let r := instList xs log
+    (r.1, .lst r.2)
+  | .dct kvs, log =>
+    let r := instDict kvs log
+    (r.1, .dct r.2)
 def instArgs : KV → List Ctor → List Ctor × List (String × Arg)
   | [], log => (log, [])
   | (k, v) :: r, log =>
     let a := inst v log
     let b := instArgs r a.1
     (b.1, (k, a.2) :: b.2)
+/-- the items of a list, in list order -/
+def instList : List Val → List Ctor → List Ctor × List (Option Nat)
+  | [], log => (log, [])
+  | v :: r, log =>
+    let a := inst v log
+    let b := instList r a.1
+    (b.1, objIdx a.2 :: b.2)
+/-- the values of a dict, in dict order -/
+def instDict : KV → List Ctor → List Ctor × List (String × Option Nat)
+  | [], log => (log, [])
+  | (k, v) :: r, log =>
+    let a := inst v log
+    let b := instDict r a.1
+    (b.1, (k, objIdx a.2) :: b.2)
 end
 
 /-- the constructor calls of `instantiate_classes` on one stored value, in order -/
